@@ -5,7 +5,9 @@ package main
 
 import (
 	"fmt"
+	"regexp"
 	"sort"
+	"strings"
 
 	"github.com/goatcms/goatcore/app"
 	"github.com/goatcms/goatcore/app/gio"
@@ -91,7 +93,13 @@ func c15Parse(o *Out, rng *RNG, n int) {
 		o.Extra["parse_skipped"] = err.Error()
 		return
 	}
-	atoms := []string{"a", "b", "ab", "B", "_x", "a1", "@a", "@b", "@g_1", " a", "b ", "\ta\n", "1a", "", "a-b", "@", "@1", "a@", "é", " @a ", "@ a", "A_9z"}
+	// the first nValid atoms are well-formed; among them names that BEGIN WITH one of the lock
+	// namespaces below (x_a in namespace x_ is the resource x_x_a, not x_a), names that are a
+	// namespace, and the absolute forms of such names
+	atoms := []string{"a", "b", "ab", "B", "_x", "a1", "@a", "@b", "@g_1", " a",
+		"x_a", "nsa", "ns", "x_", "aa", "@x_a", "@nsa", "x_x_a", "nsb",
+		"b ", "\ta\n", "1a", "", "a-b", "@", "@1", "a@", "é", " @a ", "@ a", "A_9z"}
+	const nValid = 19
 	gen := func() string {
 		k := rng.Intn(4)
 		if rng.Chance(15) {
@@ -103,7 +111,7 @@ func c15Parse(o *Out, rng *RNG, n int) {
 				s += ","
 			}
 			if rng.Chance(85) {
-				s += atoms[rng.Intn(10)] // valid share
+				s += atoms[rng.Intn(nValid)] // valid share
 			} else {
 				s += atoms[rng.Intn(len(atoms))]
 			}
@@ -115,7 +123,19 @@ func c15Parse(o *Out, rng *RNG, n int) {
 	}
 	for i := 0; i < n; i++ {
 		rl, wl := gen(), gen()
-		ns := []string{"", "", "ns", "p:q", "x_"}[rng.Intn(5)]
+		ns := []string{"", "", "ns", "p:q", "x_", "a", "x_", "ns"}[rng.Intn(8)]
+		if i%25 == 24 { // a long list: 9..40 names
+			rl, wl = "", ""
+			for k, cnt := 0, 9+rng.Intn(32); k < cnt; k++ {
+				nm := fmt.Sprintf("%s%d", atoms[rng.Intn(6)], k/2) // k/2: every name twice
+				if rng.Chance(50) {
+					rl += "," + nm
+				} else {
+					wl += "," + nm
+				}
+			}
+			rl, wl = strings.TrimPrefix(rl, ","), strings.TrimPrefix(wl, ",")
+		}
 		kind, rows := c15RunParse(mapp, rec, rl, wl, ns)
 		desc := map[string]interface{}{"op": "parse", "rlock": rl, "wlock": wl, "namespace": ns, "kind": kind, "rows": descRows(rows)}
 		o.Stat("parse_" + kind)
@@ -125,10 +145,65 @@ func c15Parse(o *Out, rng *RNG, n int) {
 		res := "None"
 		if kind == "ok" {
 			res = "(Some " + coqRows(rows) + ")"
-			// L2: every requested name appears, a name in wlock is a write lock
+			// L2: what the task asked for is what the runner is told to lock - one resource per
+			// distinct requested name (names that differ are different resources, none is
+			// dropped), write access for every name of --wlock, read access for the others
+			if nR, nW, judged := c15ParseExpect(rl, wl, ns); judged {
+				gotR, gotW := 0, 0
+				for _, r := range rows {
+					if r.W {
+						gotW++
+					} else {
+						gotR++
+					}
+				}
+				if gotR != nR || gotW != nW {
+					o.Fail("lock_request", fmt.Sprintf("pip:run --rlock=%q --wlock=%q in lock namespace %q asks for %d resources for write and %d others for read, "+
+						"the runner was handed a lock map with %d write and %d read entries", rl, wl, ns, nW, nR, gotW, gotR), "parse-lock-request", desc)
+				}
+			}
 			o.Stat(fmt.Sprintf("parse_rows_%d", len(rows)))
 		}
 		o.AddCase(fmt.Sprintf("CParse %s %s %s %s", coqStr(rl), coqStr(wl), coqStr(ns), res), desc,
 			"p:"+rl+"|"+wl+"|"+ns, kind == "ok" && len(rows) > 0)
 	}
+}
+
+var c15NameRe = regexp.MustCompile("^[a-zA-Z_]+[a-zA-Z0-9_]*$")
+
+// c15ParseExpect: how many distinct resources the two lists ask for (write / read only), or
+// judged = false when one of the names is not well-formed (what is rejected is left open).
+// Two requests name the same resource iff both are absolute (@name) or both relative to the
+// lock namespace, and spell the same name.
+func c15ParseExpect(rl, wl, ns string) (nR, nW int, judged bool) {
+	resolve := func(list string, into map[string]bool) bool {
+		if list == "" {
+			return true
+		}
+		for _, tok := range strings.Split(list, ",") {
+			tok = strings.Trim(tok, "\n\t ")
+			if strings.HasPrefix(tok, "@") {
+				if !c15NameRe.MatchString(tok[1:]) {
+					return false
+				}
+				into["abs\x00"+tok[1:]] = true
+			} else {
+				if !c15NameRe.MatchString(tok) {
+					return false
+				}
+				into["rel\x00"+tok] = true
+			}
+		}
+		return true
+	}
+	r, w := map[string]bool{}, map[string]bool{}
+	if !resolve(rl, r) || !resolve(wl, w) {
+		return 0, 0, false
+	}
+	for k := range r {
+		if !w[k] {
+			nR++
+		}
+	}
+	return nR, len(w), true
 }
